@@ -11,7 +11,7 @@ EXPLANATION = ('InterpND.interpolate(compute_derivative=True), MetaModelStructur
                'exact grids; every returned derivative entry must equal the chain-rule derivative of the term the code returned for '
                'the value (per bracketed cell: the path condition fixes the cell), and for the methods that are linear in the table '
                'the value must equal sum(d_dvalues * values).')
-BOUNDS = dict(dimension='1-2', grid_points='4-6 per axis', methods='slinear, lagrange2, lagrange3, akima, cubic, 1D-/2D- fixed variants; SplineComp also bsplines',
+BOUNDS = dict(dimension='1-2 (2-D cubic and akima: concrete table, symbolic query point)', grid_points='4-6 per axis', methods='slinear, lagrange2, lagrange3, akima, cubic, 1D-/2D- fixed variants; SplineComp also bsplines',
               akima='free symbolic values on <= 3 table entries around the cell, the rest concrete (each symbolic slope difference forks on its sign)')
 STUBS = ['np proxy', 'module-global float pass-through in general_utils/system (Problem runs)']
 ASSUMPTIONS = ['query points strictly inside a cell or on a node as selected by the bracketing path (one-sided at cell boundaries)', 'reals']
@@ -28,13 +28,18 @@ def harnesses(tier, seed):
                 continue
             jobs.append(dict(fn='h_dx', params=dict(method=m, grids=[g], npts=[n]), max_paths=20000))
     for g1, g2 in [('cross', 'neg0')] + ([] if q else [('pos', 'neg')]):
-        for m in ['slinear', 'lagrange2', 'lagrange3', '2D-slinear', '2D-lagrange2', '2D-lagrange3'] + ([] if q else ['cubic', 'akima']):
+        # 2-D cubic / akima with a free symbolic table do not finish (> 25 CPU-minutes per harness: the spline coefficients are
+        # rational functions of 16-25 symbols); their 2-D derivatives are covered with a concrete table by h_gradient
+        for m in ['slinear', 'lagrange2', 'lagrange3', '2D-slinear', '2D-lagrange2', '2D-lagrange3']:
             n = 5 if base(m) == 'akima' else MINPTS[base(m)]
             jobs.append(dict(fn='h_dx', params=dict(method=m, grids=[g1, g2], npts=[n, max(n - 1, MINPTS[base(m)])]), max_paths=20000, wall_s=900 if q else 2400))
     for m in ['slinear', 'lagrange2', 'lagrange3', 'cubic'] + ([] if q else ['akima', '1D-slinear', '1D-lagrange2', '1D-lagrange3', '1D-akima']):
         jobs.append(dict(fn='h_mm', params=dict(method=m, dim=1), max_paths=20000))
     for m in ['slinear', 'lagrange2'] + ([] if q else ['lagrange3', '2D-slinear', '2D-lagrange2', '2D-lagrange3']):
         jobs.append(dict(fn='h_mm', params=dict(method=m, dim=2), max_paths=20000, wall_s=900 if q else 2400))
+    # InterpND.gradient() on a fresh interpolant and after an interpolate() call at the same / another point (concrete table)
+    for m in ['slinear', 'lagrange2', 'lagrange3', 'akima', 'cubic', '2D-slinear', '2D-lagrange2', '2D-lagrange3']:
+        jobs.append(dict(fn='h_gradient', params=dict(method=m), max_paths=20000))
     for m in ['slinear', 'lagrange2', 'lagrange3', 'cubic'] + ([] if q else ['akima']):
         jobs.append(dict(fn='h_spline', params=dict(method=m, vec=1 if q else 2), max_paths=20000))
     return jobs
@@ -205,3 +210,45 @@ def h_spline(ctx, method, vec):
         ctx.eq('passes_through_first_cp', yi[0, 0], y[0, 0], 1e-9)
         ctx.eq('passes_through_last_cp', yi[0, ni - 1], y[0, ncp - 1], 1e-9)
     ctx.observe('yi', yi)
+
+
+def h_gradient(ctx, method):
+    """gradient(x) is the derivative of interpolate(x) whatever was asked of the interpolant before: nothing, a plain
+    interpolate(x), an interpolate with derivatives at another point"""
+    dim = 2
+    grid = _grid(ctx, ['cross', 'neg0'], [5, 5])
+    rng = np.random.default_rng(3)
+    t = ctx.consts(rng.integers(-9, 10, size=(5, 5)).tolist())
+    xs = [ctx.real(f'x{d}', float(grid[d][0]), float(grid[d][-1])) for d in range(dim)]
+    symdims = list(range(dim))
+    if base(method) == 'akima':
+        # the second-dimension akima weights are |differences| of the first-dimension results: with a symbolic x0 they are
+        # absolute values of cubics in x0 and z3 does not finish; x0 is a fixed interior point, x1 stays symbolic
+        xs[0] = ctx.const(0.7)
+        symdims = [1]
+    x = ctx.array(xs) if ctx.sym else np.array(xs, dtype=float)
+    on_node = any(bool(xs[d] == float(gv)) for d in range(dim) for gv in grid[d])
+    if on_node:
+        ctx.check('on_a_node_the_derivative_is_one_sided', True)
+        return
+    ref = _interp(ctx, method, grid, t, extrapolate=True)
+    val = np.asarray(ref.interpolate(x)).reshape(-1)[0]
+
+    def fd_for(j):
+        def fd(delta):
+            x2 = np.array([float(v) for v in xs])
+            x2[j] += delta
+            return np.asarray(_interp(ctx, method, grid, t, extrapolate=True).interpolate(x2)).reshape(-1)[0]
+        return fd
+    for hist in ('fresh', 'after_plain_interpolate', 'after_other_point'):
+        itp = _interp(ctx, method, grid, t, extrapolate=True)
+        if hist == 'after_plain_interpolate':
+            itp.interpolate(x)
+        elif hist == 'after_other_point':
+            other = ctx.array([ctx.const(0.25), ctx.const(-1.75)]) if ctx.sym else np.array([0.25, -1.75])
+            itp.interpolate(other, compute_derivative=True)
+        g = np.asarray(itp.gradient(x)).reshape(-1)
+        ctx.check(f'{hist}:shape', g.size == dim)
+        for j in (symdims if ctx.sym else range(dim)):
+            ctx.deriv(f'{hist}:gradient[{j}]', g[j], val, xs[j], fd_for(j), tol=1e-9)
+    ctx.observe('val', val)
